@@ -40,6 +40,12 @@ class QuestionHistory:
 
     def add_question_at_time(self, question: DNSQuestion, now: _float, known_answers: Set[DNSRecord]) -> None:
         """Remember a question with known answers."""
+        previous_question = self._history.get(question)
+        if previous_question is not None and previous_question[0] > now:
+            # A truncated query is answered, and remembered, some hundred
+            # milliseconds after it was heard: it must not replace the memory
+            # of a question that was heard since
+            return
         self._history[question] = (now, known_answers)
 
     def suppresses(self, question: DNSQuestion, now: _float, known_answers: Set[DNSRecord]) -> bool:
